@@ -75,6 +75,8 @@ class PDFFitStructure(Structure):
             Instance of StructureParser used to load the data.
         """
         p = Structure.read(self, filename, format)
+        if self.pdffit is None:
+            self.pdffit = PDFFitStructure().pdffit
         sg = getattr(p, "spacegroup", None)
         if sg:
             self.pdffit["spcgr"] = sg.short_name
@@ -100,6 +102,8 @@ class PDFFitStructure(Structure):
             Instance of `StructureParser` used to load the data.
         """
         p = Structure.readStr(self, s, format)
+        if self.pdffit is None:
+            self.pdffit = PDFFitStructure().pdffit
         sg = getattr(p, "spacegroup", None)
         if sg:
             self.pdffit["spcgr"] = sg.short_name
